@@ -20,7 +20,7 @@ RULE = ("cyclic class-graph topologies over <=3 synthesised classes (all edge se
         "output is plain at every level, whose round trip restores every level's class, and whose JSON codec round trip agrees; "
         "distinct = (topology, root, depth)")
 ASSUMPTIONS = [
-    "recursion limit pinned to 10000 in the worker; a RecursionError for depth <= D is unbounded recursion (a violation)",
+    "recursion limit pinned to 10000 in the worker; CPython 3.12's C-level recursion limit is not adjustable, so a RecursionError is a violation for depth <= 100 (or when the traceback shows more than 40 frames per level) and 'deeper than the interpreter allows' beyond that",
     "branching is 1-3 for depth <= 6 and 1 beyond (value size, not depth, is bounded)",
     "termination is decided on logical steps (sys.monitoring PY_START budget), wall-clock only as watchdog",
 ]
@@ -139,8 +139,17 @@ def run_shard(sh):
                         with quiet():
                             m = mm(v)
                             u = um(m)
-                    except RecursionError:
-                        sh.violation("unbounded-recursion", **rec)
+                    except RecursionError as e:
+                        # CPython 3.12 has a fixed C-level recursion limit that setrecursionlimit() cannot raise; the library
+                        # needs a constant number of frames per nesting level, so beyond ~100 levels a RecursionError means
+                        # "value deeper than the interpreter allows" (outside the statement), not unbounded recursion
+                        import traceback as _tb
+
+                        frames = len(_tb.extract_tb(e.__traceback__))
+                        if d <= 100 or frames > 40 * (d + 5):
+                            sh.violation("unbounded-recursion", frames=frames, **rec)
+                        else:
+                            sh.count("beyond_interpreter_recursion_limit")
                         continue
                     except Exception as e:  # noqa: BLE001
                         sh.violation("roundtrip-raised", exc=type(e).__name__, detail=str(e)[:300], value=short(v, 200), **rec)
@@ -162,6 +171,8 @@ def run_shard(sh):
                     except RecursionError:
                         if d <= 100:  # the JSON backends have their own nesting limits far above this
                             sh.violation("codec-unbounded-recursion", **rec)
+                        else:
+                            sh.count("beyond_interpreter_recursion_limit")
                     except Exception as e:  # noqa: BLE001
                         if "ecursion" in str(e) and d > 100:
                             continue
